@@ -149,7 +149,7 @@ Definition pkg_ok (pkg : list str) : bool := forallb name_ok pkg.
 (* in the root package a leading `**` has nothing before it and compiles to `.*/` or `.*` *)
 Definition fragment (pkg : list str) (p : pat) : bool :=
   segs_ok (has_dstar p) p && pkg_ok pkg
-  && match pkg, p with [], DStar :: _ => false | _, _ => true end.
+  && match pkg, p with _, [] => false | [], DStar :: _ => false | _, _ => true end.
 
 (* --- single tokens *)
 Definition tr_ok (tr : atom -> tok) (a : atom) : Prop :=
@@ -376,3 +376,233 @@ Proof.
                        (name_ok_not_slash x Hx) (sep_tail_tail f)).
       cbn [segs_match]. f_equal. now apply IH.
 Qed.
+
+(* nothing consumed yet: the pattern starts with an ordinary segment *)
+Lemma pattern_head tr m (Htr : forall b, atom_ok m b = true -> tr_ok tr b) a rest :
+  segs_ok m (Seg a :: rest) = true ->
+  forall f, f <> [] -> forallb name_ok f = true ->
+    tmatch (ptoks tr false (Seg a :: rest)) (intercalate f) = segs_match (Seg a :: rest) f.
+Proof.
+  intros Hp f Hne Hf. rewrite <- (pattern_tail tr m Htr _ Hp f Hf).
+  destruct f as [|x f]; [congruence|].
+  cbn [ptoks app tail_str]. unfold SL. cbn [tmatch smatch]. rewrite N.eqb_refl. reflexivity.
+Qed.
+
+Lemma seg_match_lit x : seg_match (map ALit x) x = true.
+Proof. induction x as [|c x IH]; [reflexivity|]. cbn [map seg_match atom1]. now rewrite N.eqb_refl. Qed.
+
+Lemma segs_match_pkg pkg p f : segs_match (map lit_seg pkg ++ p) (pkg ++ f) = segs_match p f.
+Proof.
+  induction pkg as [|x pkg IH]; [reflexivity|].
+  cbn [map app]. unfold lit_seg at 1. cbn [segs_match]. now rewrite seg_match_lit.
+Qed.
+
+Lemma lit_atoms_ok m x : name_ok x = true -> forallb (atom_ok m) (map ALit x) = true.
+Proof.
+  unfold name_ok. induction x as [|c x IH]; [reflexivity|]. cbn. intros H.
+  apply andb_prop in H as [Hc Hx]. apply andb_prop in Hc as [Hc _]. now rewrite Hc, IH.
+Qed.
+
+Lemma segs_ok_pkg m pkg p : pkg_ok pkg = true -> segs_ok m p = true -> segs_ok m (map lit_seg pkg ++ p) = true.
+Proof.
+  unfold pkg_ok. induction pkg as [|x pkg IH]; intros Hk Hp; [exact Hp|].
+  cbn in Hk. apply andb_prop in Hk as [Hx Hk]. cbn [map app]. unfold lit_seg at 1. cbn [segs_ok].
+  now rewrite (lit_atoms_ok m x Hx), IH.
+Qed.
+
+Definition path_str (pkg f : list str) : str := intercalate (pkg ++ f).
+
+(* The matcher theorem: every pattern of the fragment that compiles to its token translation, every package
+   path, every path of valid names below it. *)
+Theorem matcher_correct pkg p f :
+  fragment pkg p = true -> compiles pkg p = true -> f <> [] -> forallb name_ok f = true ->
+  exists ts, pattern_to_matcher (root_str pkg) (render p) = Some ts
+             /\ tmatch ts (path_str pkg f) = segs_match p f.
+Proof.
+  intros Hfr Hc Hne Hf. exists (toks_of pkg p). split; [now apply compiles_eq|].
+  unfold fragment in Hfr. apply andb_prop in Hfr as [Hfr Hshape]. apply andb_prop in Hfr as [Hp Hk].
+  unfold toks_of, path_str. rewrite <- (segs_match_pkg pkg p f).
+  set (m := has_dstar p) in *.
+  assert (Htr : forall b, atom_ok m b = true -> tr_ok (if m then rtok else gtok) b).
+  { destruct m; [exact rtok_ok|exact gtok_ok]. }
+  assert (Hq : segs_ok m (map lit_seg pkg ++ p) = true) by now apply segs_ok_pkg.
+  assert (Hg : forallb name_ok (pkg ++ f) = true) by (rewrite forallb_app; unfold pkg_ok in Hk; now rewrite Hk, Hf).
+  assert (Hgne : pkg ++ f <> []) by (destruct pkg; [exact Hne|discriminate]).
+  destruct pkg as [|x pkg].
+  - destruct p as [|[|a] rest]; try discriminate.
+    cbn [map app] in *. now apply (pattern_head _ m Htr).
+  - cbn [map app] in *. unfold lit_seg at 1. unfold lit_seg at 1 in Hq. now apply (pattern_head _ m Htr).
+Qed.
+
+(* ------------------------------------------------------------------------------------------- the full statement *)
+(* well-formed inputs: package path and tree entries are names (no '/', no newline, not empty, not "." or ".."),
+   patterns are non-empty lists of non-empty segments *)
+Definition entry_name_ok (x : str) : bool :=
+  name_ok x && negb (str_eqb x []) && negb (str_eqb x (s ".")) && negb (str_eqb x (s "..")).
+
+Fixpoint tree_ok (n : node) : bool :=
+  match n with
+  | Dir kids => (fix all (ks : list (str * node)) : bool :=
+                   match ks with [] => true | (nm, k) :: r => entry_name_ok nm && tree_ok k && all r end) kids
+  | _ => true
+  end.
+
+Definition pat_wf (p : pat) : bool :=
+  match p with
+  | [] => false
+  | _ => forallb (fun g => match g with Seg [] => false | _ => true end) p
+  end.
+
+Definition pkg_name (pkg : list str) : str := intercalate pkg.
+
+(* glob returns exactly the files the reference selects *)
+Definition holds_on (bfn : list str) (pkg : list str) (tree : node) (incs excs : list pat) (hidden syms : bool) : Prop :=
+  exists out, glob bfn (pkg_name pkg) tree (map render incs) (map render excs) hidden syms = Some out
+    /\ forall x, In x out <-> exists f, x = intercalate f /\ In f (glob_spec bfn (pkg_name pkg) tree incs excs hidden syms).
+
+Definition inputs_ok (pkg : list str) (tree : node) (incs excs : list pat) : bool :=
+  forallb entry_name_ok pkg && tree_ok tree && forallb pat_wf incs && forallb pat_wf excs.
+
+(* the same, decided by computation *)
+Definition set_agree (out : list str) (spec : list (list str)) : bool :=
+  forallb (fun x => existsb (fun f => str_eqb x (intercalate f)) spec) out
+  && forallb (fun f => existsb (str_eqb (intercalate f)) out) spec.
+
+Definition glob_agrees bfn pkg tree incs excs hidden syms : bool :=
+  match glob bfn (pkg_name pkg) tree (map render incs) (map render excs) hidden syms with
+  | Some out => set_agree out (glob_spec bfn (pkg_name pkg) tree incs excs hidden syms)
+  | None => false
+  end.
+
+Lemma holds_on_agrees bfn pkg tree incs excs hidden syms :
+  holds_on bfn pkg tree incs excs hidden syms -> glob_agrees bfn pkg tree incs excs hidden syms = true.
+Proof.
+  intros (out & Hg & Hiff). unfold glob_agrees. rewrite Hg. unfold set_agree.
+  apply andb_true_intro. split; apply forallb_forall.
+  - intros x Hx. apply Hiff in Hx as (f & -> & Hf). apply existsb_exists. exists f. split; [exact Hf|apply str_eqb_refl].
+  - intros f Hf. apply existsb_exists. exists (intercalate f). split; [|apply str_eqb_refl].
+    apply Hiff. now exists f.
+Qed.
+
+(* --- witnesses (each observed on the unchanged implementation by the harness) *)
+Definition txt_pat : list atom := [AStar; ALit 46; ALit 116; ALit 120; ALit 116].        (* *.txt *)
+Definition w_bfn := [s "BUILD"].
+
+(* 1. a file inside a hidden DIRECTORY is returned: isHidden looks at the base name only *)
+Definition w1_tree := Dir [(s ".hid", Dir [(s "x.txt", File)]); (s "a.txt", File)].
+Lemma witness_hidden_dir :
+  inputs_ok [s "p"] w1_tree [[DStar; Seg txt_pat]] [] = true
+  /\ glob w_bfn (s "p") w1_tree [s "**/*.txt"] [] false false = Some [s ".hid/x.txt"; s "a.txt"]
+  /\ glob_spec w_bfn (s "p") w1_tree [[DStar; Seg txt_pat]] [] false false = [[s "a.txt"]]
+  /\ glob_agrees w_bfn [s "p"] w1_tree [[DStar; Seg txt_pat]] [] false false = false.
+Proof. vm_compute. repeat split. Qed.
+
+(* 2. `(` is not escaped by toRegexString: **/b(1).txt selects b1.txt and never b(1).txt *)
+Definition w2_tree := Dir [(s "d1", Dir [(s "b(1).txt", File); (s "b1.txt", File)])].
+Definition w2_pat : pat := [DStar; Seg (map ALit (s "b(1).txt"))].
+Lemma witness_regex_meta :
+  inputs_ok [s "p"] w2_tree [w2_pat] [] = true
+  /\ glob w_bfn (s "p") w2_tree [s "**/b(1).txt"] [] false false = Some [s "d1/b1.txt"]
+  /\ glob_spec w_bfn (s "p") w2_tree [w2_pat] [] false false = [[s "d1"; s "b(1).txt"]]
+  /\ glob_agrees w_bfn [s "p"] w2_tree [w2_pat] [] false false = false.
+Proof. vm_compute. repeat split. Qed.
+
+(* 3. directories are returned like files *)
+Definition w3_tree := Dir [(s "d1", Dir [(s "a.txt", File)]); (s "x.txt", File)].
+Lemma witness_directory :
+  inputs_ok [s "p"] w3_tree [[Seg [AStar]]] [] = true
+  /\ glob w_bfn (s "p") w3_tree [s "*"] [] false false = Some [s "d1"; s "x.txt"]
+  /\ glob_spec w_bfn (s "p") w3_tree [[Seg [AStar]]] [] false false = [[s "x.txt"]]
+  /\ glob_agrees w_bfn [s "p"] w3_tree [[Seg [AStar]]] [] false false = false.
+Proof. vm_compute. repeat split. Qed.
+
+(* 4. in the root package "**/x" compiles to ^.*/x$: the leading ** cannot stand for no directory *)
+Lemma witness_root_doublestar :
+  inputs_ok [] w3_tree [[DStar; Seg txt_pat]] [] = true
+  /\ glob w_bfn [] w3_tree [s "**/*.txt"] [] false false = Some [s "d1/a.txt"]
+  /\ glob_spec w_bfn [] w3_tree [[DStar; Seg txt_pat]] [] false false = [[s "d1"; s "a.txt"]; [s "x.txt"]]
+  /\ glob_agrees w_bfn [] w3_tree [[DStar; Seg txt_pat]] [] false false = false
+  /\ glob_agrees w_bfn [s "p"] w3_tree [[DStar; Seg txt_pat]] [] false false = true.
+Proof. vm_compute. repeat split. Qed.
+
+(* 5. `?` becomes `.` in a ** pattern and then also matches '/' *)
+Definition w5_tree := Dir [(s "d", Dir [(s "c.txt", File)]); (s "dxc.txt", File)].
+Definition w5_pat : pat := [DStar; Seg (ALit 100 :: AQ :: map ALit (s "c.txt"))].          (* **/d?c.txt *)
+Lemma witness_question_mark :
+  inputs_ok [s "p"] w5_tree [w5_pat] [] = true
+  /\ glob w_bfn (s "p") w5_tree [s "**/d?c.txt"] [] false false = Some [s "d/c.txt"; s "dxc.txt"]
+  /\ glob_agrees w_bfn [s "p"] w5_tree [w5_pat] [] false false = false.
+Proof. vm_compute. repeat split. Qed.
+
+(* 6. a negated class matches '/' (filepath.Match and regexp alike) *)
+Definition w6_pat : pat := [Seg (ALit 100 :: AClass true [(113, 113)%N] :: map ALit (s "c.txt"))].   (* d[^q]c.txt *)
+Lemma witness_negated_class :
+  inputs_ok [s "p"] w5_tree [w6_pat] [] = true
+  /\ glob w_bfn (s "p") w5_tree [s "d[^q]c.txt"] [] false false = Some [s "d/c.txt"; s "dxc.txt"]
+  /\ glob_agrees w_bfn [s "p"] w5_tree [w6_pat] [] false false = false.
+Proof. vm_compute. repeat split. Qed.
+
+(* 7. in the root package every entry NAMED plz-out is skipped, not only the repository's output directory *)
+Definition w7_tree := Dir [(s "d", Dir [(s "plz-out", Dir [(s "a.txt", File)])]); (s "plz-out", Dir [(s "g.txt", File)])].
+Lemma witness_plz_out :
+  inputs_ok [] w7_tree [[Seg [AStar]; DStar]] [] = true
+  /\ glob w_bfn [] w7_tree [s "*/**"] [] false false = Some []
+  /\ glob_spec w_bfn [] w7_tree [[Seg [AStar]; DStar]] [] false false = [[s "d"; s "plz-out"; s "a.txt"]]
+  /\ glob_agrees w_bfn [] w7_tree [[Seg [AStar]; DStar]] [] false false = false.
+Proof. vm_compute. repeat split. Qed.
+
+(* --- the hypothesis `compiles` of the matcher theorem holds on a family of fragment patterns: every list of
+       1..3 segments drawn from `sweep_segs`, in the root package and in a nested one *)
+Definition sweep_segs : list pseg :=
+  [ DStar; Seg [AStar]; Seg [ALit 97]; Seg txt_pat; Seg [ALit 97; AStar]; Seg [AClass false [(97, 99)%N; (120, 120)%N]; ALit 43];
+    Seg [AQ; ALit 98]; Seg [ALit 97; AStar; ALit 98; AStar] ].
+
+Definition sweep_pats : list pat :=
+  let one := map (fun g => [g]) sweep_segs in
+  let two := flat_map (fun g => map (cons g) one) sweep_segs in
+  let three := flat_map (fun g => map (cons g) two) sweep_segs in
+  one ++ two ++ three.
+
+Lemma compiles_sweep :
+  forallb (fun pkg => forallb (fun p => implb (fragment pkg p) (compiles pkg p)) sweep_pats)
+          [[]; [s "pkg"]; [s "third_party"; s "go+x"]] = true
+  /\ length (filter (fragment [s "pkg"]) sweep_pats) = 526%nat.
+Proof. vm_compute. split; reflexivity. Qed.
+
+Lemma refute bfn pkg tree incs excs hidden syms (P : Prop) :
+  inputs_ok pkg tree incs excs = true ->
+  glob_agrees bfn pkg tree incs excs hidden syms = false ->
+  (forall bfn pkg tree incs excs hidden syms,
+     inputs_ok pkg tree incs excs = true -> holds_on bfn pkg tree incs excs hidden syms) -> False.
+Proof.
+  intros Hok Hno H. specialize (H bfn pkg tree incs excs hidden syms Hok).
+  apply holds_on_agrees in H. congruence.
+Qed.
+
+Lemma refuted_hidden_dir :
+  ~ (forall bfn pkg tree incs excs hidden syms,
+       inputs_ok pkg tree incs excs = true -> holds_on bfn pkg tree incs excs hidden syms).
+Proof.
+  destruct witness_hidden_dir as (Hok & _ & _ & Hno). exact (refute _ _ _ _ _ _ _ True Hok Hno).
+Qed.
+
+Lemma refuted_regex_meta :
+  ~ (forall bfn pkg tree incs excs hidden syms,
+       inputs_ok pkg tree incs excs = true -> holds_on bfn pkg tree incs excs hidden syms).
+Proof.
+  destruct witness_regex_meta as (Hok & _ & _ & Hno). exact (refute _ _ _ _ _ _ _ True Hok Hno).
+Qed.
+
+Lemma refuted_directory :
+  ~ (forall bfn pkg tree incs excs hidden syms,
+       inputs_ok pkg tree incs excs = true -> holds_on bfn pkg tree incs excs hidden syms).
+Proof.
+  destruct witness_directory as (Hok & _ & _ & Hno). exact (refute _ _ _ _ _ _ _ True Hok Hno).
+Qed.
+
+Lemma refuted_others :
+  glob_agrees w_bfn [] w3_tree [[DStar; Seg txt_pat]] [] false false = false
+  /\ glob_agrees w_bfn [s "p"] w5_tree [w5_pat] [] false false = false
+  /\ glob_agrees w_bfn [s "p"] w5_tree [w6_pat] [] false false = false
+  /\ glob_agrees w_bfn [] w7_tree [[Seg [AStar]; DStar]] [] false false = false.
+Proof. vm_compute. repeat split. Qed.
